@@ -952,6 +952,8 @@ def replay_finding(prop, k):
         return "fails" if o[0] in ("ERR", "LIBERR") and any(exp["text"] in m for m in (o[1] if len(o) > 1 else [])) else "passes"
     if exp.get("outcome") == "ok-contains":
         return "fails" if o[0] == "OK" and exp["text"] in o[1] else "passes"
+    if exp.get("outcome") == "ok-count":
+        return "fails" if o[0] == "OK" and o[1].count(exp["text"]) >= exp["min"] else "passes"
     return "n/a"
 
 
